@@ -22,7 +22,8 @@ Axis(c, min, size, bins) ==
     ELSE LET d == c[2] - min
              k == d \div size            \* floor, also for negative d
              onEdge == d % size = 0
-             cand == IF onEdge THEN {k - 1, k} ELSE {k}
+             \* exactly on the lower end of the range nothing is rounded (x - min = 0): the first bin, not "none"
+             cand == IF c[1] = "fin" /\ d = 0 THEN {0} ELSE IF onEdge THEN {k - 1, k} ELSE {k}
          IN {IF i >= 0 /\ i < bins THEN i ELSE NoBin : i \in cand}
 
 \* strict half-open convention (what the separate integration with an indicator function means)
